@@ -999,6 +999,21 @@ func verifH_C18(d *verifDesc) {
 	if d.hasTL2 {
 		verifAssert(verifBytesEq(u.(verifTL2).WriteTL2(nil, nil), t1), "same-seed-same-tl2")
 	}
+	// the value for a seed does not depend on what the object held before: filling an ARBITRARY (dirty) object from the same
+	// output sequence gives the same encodings as filling a fresh one
+	if verifParam("refill", 1) != 0 {
+		x := d.anyObj(1)
+		src3 := &verifRandSrc{rec: src.rec, replay: true}
+		d.fillRandom(x, basictl.NewRandGeneratorWithContext(src3, ctx))
+		verifCover("refilled")
+		if hasTL1 && e1 == nil {
+			w3, e3 := x.(verifTL1).WriteTL1General(nil)
+			verifAssert(e3 == nil && verifBytesEq(w1, w3), "refill-of-a-dirty-object-same-tl1")
+		}
+		if d.hasTL2 {
+			verifAssert(verifBytesEq(x.(verifTL2).WriteTL2(nil, nil), t1), "refill-of-a-dirty-object-same-tl2")
+		}
+	}
 }
 
 // ---- C09 with JSON as the second decode ----
